@@ -122,11 +122,27 @@ def replay(ctx, behaviours, exe, env, fan, tag=""):
     return cases, builds, acts, results
 
 
+TRACE_CFG = {("h1", "h2"): "trace/DepHashTrace.cfg", ("h1",): "trace/DepHashTrace1.cfg"}
+
+
 def validate_traces(ctx, behaviours, results):
     """code -> spec: the log of what the real builds reported (cache directory, compiled/loaded, value)
-    is consumed by trace/DepHashTrace.tla; every event must be accepted."""
+    is consumed by trace/DepHashTrace.tla; every event must be accepted.  One TLC run per set of headers
+    the kernel source includes (a constant of the spec)."""
+    total = 0
+    for root, cfg in sorted(TRACE_CFG.items()):
+        idx = [i for i, b in enumerate(behaviours) if tuple(b["root"]) == root]
+        if idx:
+            total += validate_group(ctx, behaviours, results, idx, cfg)
+    if any(tuple(b["root"]) not in TRACE_CFG for b in behaviours):
+        raise Broken("history with a kernel root the trace configs do not know")
+    return total
+
+
+def validate_group(ctx, behaviours, results, idx, cfg):
     events, origin = [], []
-    for i, b in enumerate(behaviours):
+    for i in idx:
+        b = behaviours[i]
         o = results[i]
         if any(ob is not None and ob["status"] != "ok" for ob in o["obs"]):
             continue                      # already reported by the replay comparison
@@ -141,11 +157,11 @@ def validate_traces(ctx, behaviours, results):
             origin.append((i, j))
     if not events:
         return 0
-    path = os.path.join(ctx.tmp, "dephash-trace.ndjson")
+    path = os.path.join(ctx.tmp, "dephash-trace-%d.ndjson" % len(os.listdir(ctx.tmp)))
     with open(path, "w") as f:
         for e in events:
             f.write(json.dumps(e) + "\n")
-    r = ctx.tlc("trace/MC_DepHashTrace.tla", "trace/DepHashTrace.cfg", workers=1, deadlock=False,
+    r = ctx.tlc("trace/MC_DepHashTrace.tla", cfg, workers=1, deadlock=False,
                 env={"TRACE": path}, timeout=2400)
     if r.rc != 0:
         raise Broken("trace validation run failed (rc=%s):\n%s" % (r.rc, r.out[-2000:]))
@@ -176,10 +192,13 @@ def run(ctx):
         ctx.tlc_must_pass(r3, "DepHash design, 3 headers")
     # 2. behaviours
     # (cfg, simulate num, depth, cap on the number of distinct behaviours kept)
-    gens = [("mc/DepHash_gen.cfg", None, None, None), ("mc/DepHash_sim3q.cfg", 10, 8, 40)]
+    # DepHash_join.cfg: the directed "join" family (a header joins the include graph through an edit of an
+    # included header, is built, then edited / leaves / rejoins), 4 builds per history
+    gens = [("mc/DepHash_gen.cfg", None, None, None), ("mc/DepHash_join.cfg", None, None, None),
+            ("mc/DepHash_sim3q.cfg", 6, 8, 20)]
     if thorough:
         gens = [("mc/DepHash_gen5.cfg", None, None, None), ("mc/DepHash_gen4v3.cfg", None, None, None),
-                ("mc/DepHash_sim3.cfg", 100, 12, 300)]
+                ("mc/DepHash_join.cfg", None, None, None), ("mc/DepHash_sim3.cfg", 100, 12, 300)]
     seen, behaviours = set(), []
     for cfg, sim, depth, cap in gens:
         # simulation with one worker: the order of the traces is a function of the seed
@@ -201,6 +220,7 @@ def run(ctx):
             behaviours.append(b)
             kept += 1
     directed = 0
+    ctx.cov["join_family_histories"] = sum(1 for b in behaviours if b["root"] == ["h1"])
     if thorough:
         # directed histories: every history of <= 7 steps on which the model of the code as found diverges
         # (TLC, Variant = "found"), stratified by shape; the prediction stays the intended one
@@ -220,17 +240,28 @@ def run(ctx):
             directed += 1
         ctx.cov["directed_histories_from_found_model"] = directed
         ctx.cov["directed_classes"] = len(per)
+    # every build step of a history is compared, so a history that is a proper prefix of another one
+    # (same kernel, same initial files) adds nothing: keep the maximal ones
+    def hkey(b, n):
+        return json.dumps([b["root"], b["init"], b["steps"][:n]], sort_keys=True)
+    prefixes = set()
+    for b in behaviours:
+        for n in range(1, len(b["steps"])):
+            prefixes.add(hkey(b, n))
+    generated = len(behaviours)
+    behaviours = [b for b in behaviours if hkey(b, len(b["steps"])) not in prefixes]
+    ctx.cov["histories_generated"] = generated
     exe, lib = ctx.build_harness("dephash_replay", ["dephash_replay.cpp"], variant="fast")
     env = ctx.occa_env(lib)
     env["DEPHASH_TIMEOUT"] = "300"
     env["DEPHASH_TEMPLATE"] = warm_template(ctx, exe, env)
-    cases, builds, acts, results = replay(ctx, behaviours, exe, env, fan=12 if thorough else 8)
+    cases, builds, acts, results = replay(ctx, behaviours, exe, env, fan=12)
     accepted = validate_traces(ctx, behaviours, results)
     ctx.traces_validated = len(behaviours)
     variants = 1
     if thorough:
         # the same short histories through device::buildKernelFromString, and on the OpenMP device
-        short = [b for b in behaviours if len(b["steps"]) <= 4 and len(b["init"]) == 2
+        short = [b for b in behaviours if (len(b["steps"]) <= 4 or b["root"] == ["h1"]) and (len(b["init"]) == 2 or b["root"] == ["h1"])
                  and all(t.get("x") != 3 and t["text"]["val"] != 3 for t in b["steps"] if t["a"] != "build")]
         for tag, extra in (("-string", {"DEPHASH_KIND": "string"}), ("-openmp", {"DEPHASH_MODE": "OpenMP"})):
             e2 = dict(env)
